@@ -88,6 +88,10 @@ def gen(ctx, seed, tier):
     # errno at entry is a dimension of every kind of case (the result must not depend on a stale errno)
     cases = [("@%d %s" % (r.choice(ENTRY_ERRNOS), c)) if r.random() < 0.5 else c for c in cases]
     cases += ["@11 S %d 0 0 0" % M, "@11 S %d 0 0 12" % M, "@11 T %d 2 0 f" % M, "@4 J 0", "@11 T 262144 8 100 r"]
+    # two creators interleaved (the second call completes between the first one's setstacksize and pthread_create)
+    for a, b in [(16 * M, 65536), (65536, 16 * M), (M, M), (32 * M + 64, 131072), (2**32, 65536), (100000, 8 * M)]:
+        cases.append("I %d %d" % (a, b))
+    cases += ["I %d %d" % (r.choice(sizes[4:]), r.choice(sizes[4:])) for _ in range(20 if thorough else 6)]
     cases += ["U %d" % s for s in [16384, 16384 + 64, 16384 + 128, 16384 + 64 * 33, 20000, 32768, 65536, 65536 + 64,
                                    100000, 0, 1, 16383]]
     return cases
@@ -114,13 +118,39 @@ def run_impl(ctx, cases):
 
 
 def run_model(ctx, cases):
-    return ctx.run_model("drv_c18", cases)
+    # I <a> <b>: two creators interleaved.  Each is the model's scripted create (all pthread calls succeed); the line
+    # is assembled from the two model lines: the second creator's calls sit between the first one's set and create
+    plain = []
+    for c in cases:
+        t = body(c).split()
+        if t[0] == "I":
+            plain += ["S %s 0 0 0" % t[1], "S %s 0 0 0" % t[2]]
+        else:
+            plain.append(c)
+    ms, ss = ctx.run_model("drv_c18", plain)
+    M, S, k = [], [], 0
+    for c in cases:
+        t = body(c).split()
+        if t[0] != "I":
+            M.append(ms[k]); S.append(ss[k]); k += 1
+            continue
+        ca = ms[k].split(" || ")[1].rsplit(" stack=", 1)
+        cb = ms[k + 1].split(" || ")[1].rsplit(" stack=", 1)
+        k += 2
+        a_calls, b_calls = ca[0].split(), cb[0].replace("a0", "a1").split()
+        cut = next(i for i, x in enumerate(a_calls) if x.startswith("set(")) + 1
+        calls = a_calls[:cut] + b_calls + a_calls[cut:]
+        M.append("st=SUCCESS/SUCCESS started=2 stack_ge=1/1 || %s stack=%s/%s" % (" ".join(calls), ca[1], cb[1]))
+        S.append("st=SUCCESS/SUCCESS started=2 stack_ge=1/1")
+    return M, S
 
 
 def l1_extra(case, impl_obs):
     if impl_obs.startswith("CRASH"):
         return False
     t = body(case).split()
+    if t[0] == "I":
+        return True         # the spec line is complete for these
     st = impl_obs.split()[0] if impl_obs else ""
     if t[0] == "S":
         rcs = [int(x) for x in t[4].split(",")]
